@@ -1,4 +1,4 @@
-import LopdfModel.Thm.FileLoadObjects
+import LopdfModel.Thm.FileLoadObjectsStream
 import LopdfModel.Thm.C01Indirect
 /-
   C01 — **`file_rt` for table saves**: the file-level theorems (`Thm/File*.lean`) composed with
@@ -107,6 +107,161 @@ theorem file_rt_table (order : Option (List Nat)) (d : SDoc) (out : Bytes) (d' :
       omega
     · exact NoRealD_set_int _ _ _ t3
   apply load_of_save_table order d out d' hk h hlen hmax hwf (hD _) ?_ hv1 hv2 hprev henc
+  intro p hp
+  obtain ⟨hr1, hr2⟩ := hwf.range p hp
+  exact indirectReadsBack_of_ok _ _ _ (by simp [U32_MAX]; omega)
+    (by have := hwf.gens p hp; simp [U16_MAX]; omega) (hobjs p hp)
+
+/-! ### `file_rt`, cross-reference stream -/
+
+theorem WFD_iff (es : List (Bytes × Obj)) : WFD (fun _ => True) es ↔ ∀ p ∈ es, WF (fun _ => True) p.2 := by
+  induction es with
+  | nil => simp [WFD]
+  | cons p rest ih => obtain ⟨k, v⟩ := p; simp [WFD, ih]
+
+theorem WFL_iff (items : List Obj) : WFL (fun _ => True) items ↔ ∀ o ∈ items, WF (fun _ => True) o := by
+  induction items with
+  | nil => simp [WFL]
+  | cons o rest ih => simp [WFL, ih]
+
+theorem heightD_le_iff (es : List (Bytes × Obj)) (hgt : Nat) : heightD es ≤ hgt ↔ ∀ p ∈ es, height p.2 ≤ hgt := by
+  induction es with
+  | nil => simp [heightD]
+  | cons p rest ih =>
+    obtain ⟨k, v⟩ := p
+    simp only [heightD, List.mem_cons, forall_eq_or_imp, ← ih]
+    omega
+
+theorem heightL_le_iff (items : List Obj) (hgt : Nat) : heightL items ≤ hgt ↔ ∀ o ∈ items, height o ≤ hgt := by
+  induction items with
+  | nil => simp [heightL]
+  | cons o rest ih =>
+    simp only [heightL, List.mem_cons, forall_eq_or_imp, ← ih]
+    omega
+
+theorem NoRealD_iff (es : List (Bytes × Obj)) : NoRealD es ↔ ∀ p ∈ es, NoReal p.2 := by
+  induction es with
+  | nil => simp [NoRealD]
+  | cons p rest ih => obtain ⟨k, v⟩ := p; simp [NoRealD, ih]
+
+theorem NoRealL_iff (items : List Obj) : NoRealL items ↔ ∀ o ∈ items, NoReal o := by
+  induction items with
+  | nil => simp [NoRealL]
+  | cons o rest ih => simp [NoRealL, ih]
+
+/-- a value is fine for the composed theorem -/
+def ValOK (o : Obj) : Prop := WF (fun _ => True) o ∧ height o ≤ MAX_NESTING - 1 ∧ NoReal o
+
+theorem intArr_ok (l : List Obj) (h : ∀ o ∈ l, ∃ n : Nat, o = .int (n : Int) ∧ n ≤ 4294967296) : ValOK (.arr l) := by
+  refine ⟨?_, ?_, ?_⟩
+  · simp only [WF]
+    rw [WFL_iff]
+    intro o ho
+    obtain ⟨n, rfl, hn⟩ := h o ho
+    simp only [WF, I64_MAX]; omega
+  · simp only [height]
+    have : heightL l ≤ 0 := by
+      rw [heightL_le_iff]
+      intro o ho
+      obtain ⟨n, rfl, _⟩ := h o ho
+      simp [height]
+    have : 2 ≤ MAX_NESTING := by decide
+    omega
+  · simp only [NoReal]
+    rw [NoRealL_iff]
+    intro o ho
+    obtain ⟨n, rfl, _⟩ := h o ho
+    simp [NoReal]
+
+theorem int_ok (n : Nat) (hn : n ≤ 4294967296) : ValOK (.int (n : Int)) := by
+  refine ⟨by simp only [WF, I64_MAX]; omega, by simp [height], by simp [NoReal]⟩
+
+/-- every entry of the dictionary `create_xref_steam` builds comes from the trailer or is one of
+the five values the writer sets -/
+theorem streamTrailer_values_ok (d : SDoc) (hmax : d.maxId + 2 ≤ 4294967295) (hg : GensOk d)
+    (hlen : (xrefStreamContent (streamSecs (xmapStream [] d) (d.maxId + 1))).length ≤ 4294967296)
+    (htr : ∀ p ∈ d.trailer, ValOK p.2) : ∀ p ∈ streamTrailer [] d, ValOK p.2 := by
+  intro p hp
+  unfold streamTrailer at hp
+  simp only at hp
+  rcases Dict_mem_set _ _ _ _ hp with hp | hp
+  · have hp := Dict_mem_remove _ _ _ hp
+    rcases Dict_mem_set _ _ _ _ hp with hp | hp
+    · rcases Dict_mem_set _ _ _ _ hp with hp | hp
+      · rcases Dict_mem_set _ _ _ _ hp with hp | hp
+        · rcases Dict_mem_set _ _ _ _ hp with hp | hp
+          · exact htr p hp
+          · subst hp; exact ⟨by simp [WF], by simp [height], by simp [NoReal]⟩
+        · subst hp
+          have := int_ok (d.maxId + 1 + 1) (by omega)
+          simpa using this
+      · subst hp
+        apply intArr_ok
+        intro o ho
+        simp [XREF_W] at ho
+        rcases ho with h | h | h <;> subst h
+        · exact ⟨1, rfl, by omega⟩
+        · exact ⟨4, rfl, by omega⟩
+        · exact ⟨2, rfl, by omega⟩
+    · subst hp
+      apply intArr_ok
+      intro o ho
+      simp only [xrefStreamIndex, List.mem_flatten, List.mem_map] at ho
+      obtain ⟨l, ⟨sec, hsec, rfl⟩, ho⟩ := ho
+      obtain ⟨hb, _⟩ := streamSecs_ok (xmapStream [] d) (d.maxId + 1) (xmapStream_ok [] d hg) (by omega) sec hsec
+      simp only [List.mem_cons, List.mem_nil_iff, or_false] at ho
+      rcases ho with h | h <;> subst h
+      · exact ⟨sec.1, rfl, by omega⟩
+      · exact ⟨sec.2.length, rfl, by omega⟩
+  · subst hp
+    exact int_ok _ hlen
+
+/-- **`file_rt`, cross-reference stream (C01).** As `file_rt_table` for documents saved with a
+cross-reference stream (`Size = max_id + 2 ≤ u32::MAX`): `load (save d)` returns the same version
+and binary mark, the stream dictionary minus `Length`/`W`/`Index` as trailer, the writer's
+`startxref`, and for every object id the object `d` holds — plus the cross-reference stream
+object itself under `(max_id + 1, 0)`. No parsing hypothesis is left. -/
+theorem file_rt_stream (order : Option (List Nat)) (d : SDoc) (out : Bytes) (d' : SDoc)
+    (hk : d.xrefKind = .stream) (h : saveFrom [] d = some (out, d')) (hlen : out.length < 4294967296)
+    (hmax : d.maxId + 2 ≤ 4294967295) (hwf : DocWF d)
+    (hobjs : ∀ p ∈ d.objects, ObjOK p.2)
+    (htr : WFObj (.dict d.trailer) ∧ height (.dict d.trailer) ≤ MAX_NESTING ∧ NoRealD d.trailer)
+    (hv1 : ∀ b ∈ d.version, notEol b = true) (hv2 : validUtf8 d.version = true)
+    (hprev : d.trailer.get PREV = none) (henc : d.trailer.has ENCRYPT = false) :
+    ∃ L : Loaded, loadDocOrd order out = .ok L ∧ L.version = d.version ∧ L.binaryMark = d.binaryMark ∧
+      L.trailer = streamTrailerRead [] d ∧ L.xrefStart = (bodyOf [] d).length ∧ L.maxId ≤ d.maxId + 1 ∧
+      ∀ id, L.objects.get id = (objectsWithXref d).get id := by
+  obtain ⟨hout, htr'⟩ := saveFrom_stream_eq [] d out d' hk h
+  obtain ⟨t1, t2, t3⟩ := htr
+  simp only [WFObj, WF] at t1
+  have hnd : d.trailer.keys.Nodup := t1.1
+  have hclen : (xrefStreamContent (streamSecs (xmapStream [] d) (d.maxId + 1))).length ≤ 4294967296 := by
+    have : (xrefStreamContent (streamSecs (xmapStream [] d) (d.maxId + 1))).length ≤ out.length := by
+      rw [hout]
+      simp only [List.length_append, writeIndirect, writeObj]
+      omega
+    omega
+  have hvals : ∀ p ∈ d.trailer, ValOK p.2 := by
+    intro p hp
+    refine ⟨(WFD_iff d.trailer).mp t1.2 p hp, ?_, (NoRealD_iff d.trailer).mp t3 p hp⟩
+    simp only [height] at t2
+    have := (heightD_le_iff d.trailer (MAX_NESTING - 1)).mp (by omega) p hp
+    exact this
+  have hsv := streamTrailer_values_ok d hmax hwf.gens hclen hvals
+  have hD : ∀ rest, DictReadsBack d'.trailer rest := by
+    intro rest
+    unfold DictReadsBack
+    rw [htr']
+    apply pDictionary_rt_noReal
+    · simp only [WFObj, WF]
+      exact ⟨streamTrailer_nodup [] d hnd, (WFD_iff _).mpr (fun p hp => (hsv p hp).1)⟩
+    · simp only [height]
+      have := (heightD_le_iff (streamTrailer [] d) (MAX_NESTING - 1)).mpr (fun p hp => (hsv p hp).2.1)
+      have : 2 ≤ MAX_NESTING := by decide
+      omega
+    · exact (NoRealD_iff _).mpr (fun p hp => (hsv p hp).2.2)
+  apply load_of_save_stream_with _ (loadDocOrd_arr_nil order) d out d' hk h hlen hmax hwf hnd (hD _) ?_ hv1 hv2 hprev
+    henc
   intro p hp
   obtain ⟨hr1, hr2⟩ := hwf.range p hp
   exact indirectReadsBack_of_ok _ _ _ (by simp [U32_MAX]; omega)
